@@ -16,7 +16,7 @@ def guardTable : List (String × Guard) := [
   ("Cache.minAge", .immutable), ("Cache.maxAge", .immutable), ("Cache.minCount", .immutable), ("Cache.maxCount", .immutable),
   ("Cache.pruneFn", .immutable), ("Cache.prunePreFn", .immutable), ("Cache.prunePostFn", .immutable),
   -- olareg.Server
-  ("Server.httpServer", .own),
+  ("Server.httpServer", .own), ("Server.stopped", .own),
   ("Server.conf", .immutable), ("Server.store", .immutable), ("Server.log", .immutable),
   ("Server.referrerCache", .immutable), ("Server.rateLimit", .immutable),
   -- directory store
